@@ -18,6 +18,21 @@ ToggleFlag(col, f) ==
   CASE f = "pk" -> [col EXCEPT !.pk = ~@] [] f = "unique" -> [col EXCEPT !.unique = ~@]
     [] f = "notnull" -> [col EXCEPT !.notnull = ~@] [] f = "autoinc" -> [col EXCEPT !.autoinc = ~@]
 
+\* removal of a top-level element: links are positions, so everything behind the removed position moves up by one
+Down(i, gone) == IF i > gone THEN i - 1 ELSE i
+DropTable(m, t) ==
+  [m EXCEPT !.tables = RemoveAt(@, t),
+            !.refs = [i \in DOMAIN @ |-> [@[i] EXCEPT !.t1 = Down(@, t), !.t2 = Down(@, t)]],
+            !.groups = [i \in DOMAIN @ |-> [@[i] EXCEPT !.items = [j \in DOMAIN @ |-> Down(@[j], t)]]]]
+DropEnum(m, x) ==
+  [m EXCEPT !.enums = RemoveAt(@, x),
+            !.tables = [i \in DOMAIN @ |-> [@[i] EXCEPT !.cols = [j \in DOMAIN @ |->
+                          IF @[j].type.k = "enum" THEN [@[j] EXCEPT !.type = [k |-> "enum", e |-> Down(@.e, x)]] ELSE @[j]]]]]
+TableFree(m, t) == /\ \A i \in DOMAIN m.refs : m.refs[i].t1 # t /\ m.refs[i].t2 # t
+                   /\ \A i \in DOMAIN m.groups : \A j \in DOMAIN m.groups[i].items : m.groups[i].items[j] # t
+EnumFree(m, x) == \A i \in DOMAIN m.tables : \A j \in DOMAIN m.tables[i].cols :
+                     ~(m.tables[i].cols[j].type.k = "enum" /\ m.tables[i].cols[j].type.e = x)
+
 ApplyEdit(m, e) ==
   CASE e.op = "table_name"   -> [m EXCEPT !.tables[e.t].name = e.v]
     [] e.op = "table_schema" -> [m EXCEPT !.tables[e.t].schema = e.v]
@@ -38,18 +53,37 @@ ApplyEdit(m, e) ==
     [] e.op = "remove_index" -> [m EXCEPT !.tables[e.t].idxs = RemoveAt(@, e.x)]
     [] e.op = "dup_index"    -> [m EXCEPT !.tables[e.t].idxs = Append(@, @[e.x])]      \* a second index equal to index x
     [] e.op = "add_enum_item" -> [m EXCEPT !.enums[e.e].items = Append(@, e.item)]
+    \* additions and removals of top-level elements (the quantifier of C10: "attribute edits and element additions/removals")
+    [] e.op = "add_table"    -> [m EXCEPT !.tables = Append(@, e.table)]
+    [] e.op = "delete_table" -> DropTable(m, e.t)
+    [] e.op = "add_ref"      -> [m EXCEPT !.refs = Append(@, e.ref)]
+    [] e.op = "delete_ref"   -> [m EXCEPT !.refs = RemoveAt(@, e.r)]
+    [] e.op = "add_enum"     -> [m EXCEPT !.enums = Append(@, e.enum)]
+    [] e.op = "delete_enum"  -> DropEnum(m, e.e)
+    [] e.op = "add_group"    -> [m EXCEPT !.groups = Append(@, e.group)]
+    [] e.op = "delete_group" -> [m EXCEPT !.groups = RemoveAt(@, e.g)]
+    [] e.op = "add_sticky"   -> [m EXCEPT !.notes = Append(@, e.note)]
+    [] e.op = "set_project"  -> [m EXCEPT !.project = e.project]
+    [] e.op = "delete_project" -> [m EXCEPT !.project = NoProject]
     [] e.op = "skip"         -> m
 
 \* (flag edits are listed several times: the layout of PRIMARY KEY clauses depends on how many pk columns a table has)
 EditOps == <<"table_name", "table_schema", "table_alias", "table_note", "col_name", "col_type", "col_flag", "col_flag", "col_flag", "col_default",
              "col_note", "enum_name", "ref_type", "ref_inline", "ref_name", "ref_actions", "add_column", "add_index",
-             "remove_index", "remove_index", "dup_index", "add_enum_item">>
+             "remove_index", "remove_index", "dup_index", "add_enum_item",
+             "add_table", "delete_table", "add_ref", "add_ref", "delete_ref", "add_enum", "delete_enum", "add_group", "delete_group", "add_sticky",
+             "set_project", "delete_project">>
 
 \* the i-th edit of a seed, chosen in the current model m (positions must exist; otherwise "skip")
 ChooseEdit(sd, i, m) ==
   IF m.tables = <<>> THEN [op |-> "skip"] ELSE
-  LET op == Pick(sd, K(50 + i, 0, 1), EditOps)
-      t == Num(sd, K(50 + i, 0, 2), 1, Len(m.tables))
+  \* steering: once a table holds two EQUAL indexes (dup_index), the next edits prefer that table and the removal of an
+  \* index from it -- a state worth probing is probed instead of being left behind by the next random choice
+  LET twinTabs == SelectSeq([x \in DOMAIN m.tables |-> x],
+                            LAMBDA x : \E a, b \in DOMAIN m.tables[x].idxs : a < b /\ m.tables[x].idxs[a] = m.tables[x].idxs[b])
+      steer == twinTabs # <<>> /\ Coin(sd, K(50 + i, 0, 12), 50)
+      op == IF steer THEN "remove_index" ELSE Pick(sd, K(50 + i, 0, 1), EditOps)
+      t == IF steer THEN twinTabs[1] ELSE Num(sd, K(50 + i, 0, 2), 1, Len(m.tables))
       c == Num(sd, K(50 + i, 0, 3), 1, Len(m.tables[t].cols))
       fresh == NewNames[((H(sd, K(50 + i, 0, 4)) + i) % Len(NewNames)) + 1] \o "_" \o ToString(i)
       nonm2m == SelectSeq([r \in DOMAIN m.refs |-> r], LAMBDA r : m.refs[r].type # "<>")
@@ -89,6 +123,33 @@ ChooseEdit(sd, i, m) ==
     [] op = "dup_index"    -> IF m.tables[t].idxs = <<>> THEN skip ELSE [op |-> op, t |-> t, x |-> Num(sd, K(50 + i, 0, 5), 1, Len(m.tables[t].idxs))]
     [] op = "add_enum_item" -> IF m.enums = <<>> THEN skip
                                ELSE [op |-> op, e |-> Num(sd, K(50 + i, 0, 5), 1, Len(m.enums)), item |-> [name |-> fresh, note |-> "", comment |-> ""]]
+    [] op = "add_table"    -> [op |-> op, table |-> [schema |-> Pick(sd, K(50 + i, 0, 5), <<"public", "public", "s1">>), name |-> fresh, alias |-> "",
+                                                     color |-> "", note |-> Pick(sd, K(50 + i, 0, 6), NewTexts), props |-> <<>>, comment |-> "",
+                                                     cols |-> <<[name |-> "id", type |-> [k |-> "str", v |-> "int"], pk |-> TRUE, unique |-> FALSE,
+                                                                 notnull |-> FALSE, autoinc |-> FALSE, default |-> [k |-> "none", v |-> ""],
+                                                                 note |-> "", props |-> <<>>, comment |-> ""]>>,
+                                                     idxs |-> <<>>]]
+    [] op = "delete_table" -> LET free == SelectSeq([x \in DOMAIN m.tables |-> x], LAMBDA x : TableFree(m, x)) IN
+                              IF free = <<>> \/ Len(m.tables) = 1 THEN skip ELSE [op |-> op, t |-> Pick(sd, K(50 + i, 0, 5), free)]
+    [] op = "add_ref"      -> LET t2 == Num(sd, K(50 + i, 0, 5), 1, Len(m.tables))
+                                  kind == Pick(sd, K(50 + i, 0, 7), RefKinds)
+                              IN [op |-> op, ref |-> [type |-> kind, name |-> IF Coin(sd, K(50 + i, 0, 8), 30) THEN fresh ELSE "",
+                                                      onupdate |-> Pick(sd, K(50 + i, 0, 9), Actions), ondelete |-> Pick(sd, K(50 + i, 0, 10), Actions),
+                                                      comment |-> "", inline |-> Coin(sd, K(50 + i, 0, 11), 40),
+                                                      t1 |-> t, c1 |-> <<c>>, t2 |-> t2, c2 |-> <<Num(sd, K(50 + i, 0, 6), 1, Len(m.tables[t2].cols))>>]]
+    [] op = "delete_ref"   -> IF m.refs = <<>> THEN skip ELSE [op |-> op, r |-> Num(sd, K(50 + i, 0, 5), 1, Len(m.refs))]
+    [] op = "add_enum"     -> [op |-> op, enum |-> [schema |-> Pick(sd, K(50 + i, 0, 5), <<"public", "s1">>), name |-> fresh,
+                                                    items |-> <<[name |-> "one", note |-> "", comment |-> ""], [name |-> "two", note |-> "", comment |-> ""]>>,
+                                                    comment |-> ""]]
+    [] op = "delete_enum"  -> LET free == SelectSeq([x \in DOMAIN m.enums |-> x], LAMBDA x : EnumFree(m, x)) IN
+                              IF free = <<>> THEN skip ELSE [op |-> op, e |-> Pick(sd, K(50 + i, 0, 5), free)]
+    [] op = "add_group"    -> [op |-> op, group |-> [name |-> fresh, items |-> IF Coin(sd, K(50 + i, 0, 5), 70) THEN <<t>> ELSE <<>>,
+                                                     note |-> Pick(sd, K(50 + i, 0, 6), NewTexts), color |-> "", comment |-> ""]]
+    [] op = "delete_group" -> IF m.groups = <<>> THEN skip ELSE [op |-> op, g |-> Num(sd, K(50 + i, 0, 5), 1, Len(m.groups))]
+    [] op = "add_sticky"   -> [op |-> op, note |-> [name |-> fresh, text |-> Pick(sd, K(50 + i, 0, 5), NewTexts)]]
+    [] op = "set_project"  -> [op |-> op, project |-> [present |-> TRUE, name |-> fresh, items |-> <<>>, note |-> Pick(sd, K(50 + i, 0, 5), NewTexts),
+                                                       comment |-> ""]]
+    [] op = "delete_project" -> IF m.project.present THEN [op |-> op] ELSE skip
 
 \* the edit domain: an edit must leave a database that the container itself would accept (no two
 \* tables under one key, no two identical references); others are replaced by "skip"
@@ -125,7 +186,17 @@ Model0 == Stored(ParseDoc(TheDoc, WithProps), TheDoc)
 StoredIsParsed == WellFormed(TheDoc) => Eff(Model0) = ParseDoc(TheDoc, WithProps)
 History == HistoryOf(seed)
 \* design level: an edit touches only what it names (sizes of the other lists are kept)
-EditsLocalOn(h, m0) == \A i \in DOMAIN h : h[i].after.kind = "db" /\ Len(h[i].after.tables) = Len(m0.tables) /\ Len(h[i].after.refs) = Len(m0.refs)
+\* (top-level lists change their length by at most one per edit, and every link still points inside its list)
+LinksInside(m) == /\ \A i \in DOMAIN m.refs : m.refs[i].t1 \in DOMAIN m.tables /\ m.refs[i].t2 \in DOMAIN m.tables
+                                               /\ (\A j1 \in DOMAIN m.refs[i].c1 : m.refs[i].c1[j1] \in DOMAIN m.tables[m.refs[i].t1].cols)
+                                               /\ \A j2 \in DOMAIN m.refs[i].c2 : m.refs[i].c2[j2] \in DOMAIN m.tables[m.refs[i].t2].cols
+                  /\ \A g \in DOMAIN m.groups : \A j3 \in DOMAIN m.groups[g].items : m.groups[g].items[j3] \in DOMAIN m.tables
+                  /\ \A t \in DOMAIN m.tables : \A j4 \in DOMAIN m.tables[t].cols :
+                        m.tables[t].cols[j4].type.k = "enum" => m.tables[t].cols[j4].type.e \in DOMAIN m.enums
+Near(a, b) == a = b \/ a = b + 1 \/ b = a + 1
+EditsLocalOn(h, m0) == \A i \in DOMAIN h : /\ h[i].after.kind = "db" /\ LinksInside(h[i].after)
+                                             /\ LET before == IF i = 1 THEN m0 ELSE h[i - 1].after IN
+                                                Near(Len(h[i].after.tables), Len(before.tables)) /\ Near(Len(h[i].after.refs), Len(before.refs))
 EditsLocal == WellFormed(TheDoc) => EditsLocalOn(TLCEval(HistoryOf(seed)), Model0)
 EmitEdits == WellFormed(TheDoc) => PrintT(<<"DOC", seed, ToJson([doc |-> TheDoc, model |-> Model0, history |-> History])>>)
 =============================================================================
